@@ -58,3 +58,10 @@ pub assume_specification<'a, T, P: FnMut(&'a T) -> bool>[ <core::slice::Iter<'a,
             None => forall|j: int| 0 <= j < s.len() ==> call_ensures(predicate, (&#[trigger] s[j],), false),
         };
 
+
+/// A2: `str::trim` returns some substring (which one is irrelevant: no property lets an entry
+/// point alter its input)
+pub uninterp spec fn vx_trim(s: Seq<char>) -> Seq<char>;
+pub assume_specification[ str::trim ](s: &str) -> (r: &str)
+    ensures r@ == vx_trim(s@);
+
